@@ -10,6 +10,18 @@ BASELINE = "cd /repo && /venv/bin/python -m pytest -ra -q -p no:cacheprovider --
 
 # id -> (category, technique, text, note, design_ref, engine)
 CHECKS = {
+    "C08": (
+        "model_checking",
+        "bounded-exhaustive enumeration of store/load programs over a grammar of location expressions, each run by the real SEVM.run in both storage layouts and compared with a flat-dict reference EVM for every key valuation of a colliding domain; complete sweep of the precomputed hash tables",
+        "Every SSTORE/SLOAD/TSTORE/TLOAD program of length <= 3 (thorough: 3 over the full location alphabet) over location expressions (scalars, mappings, nested mappings, "
+        "dynamic arrays, struct offsets, packed-key mappings; the same slot written as a run-time hash of concrete data, of symbolic data, and as the precomputed "
+        "constant plus offset, with commuted/re-associated additions) is executed by the real SEVM.run in the solidity and generic layouts; for every valuation of "
+        "the symbolic keys x,y in {0,1,2} (colliding with the concrete keys) the loaded values must equal a flat 2^256-slot dictionary with real keccak, and every "
+        "valuation must be covered by a reported path. Every entry of halmos/hashes.py is recomputed with keccak and OffsetMap is probed against a dict model.",
+        "Trusted: mc/refevm.py SLOAD/SSTORE/TLOAD/TSTORE + keccak, mc/symeval.py. Hash range/injectivity are documented assumptions; the domain stays away from them.",
+        "DESIGN.md §4 C08",
+        "A",
+    ),
     "C09": (
         "model_checking",
         "bounded-exhaustive enumeration of call trees (depth <= 3, thorough 4) over generated callee contracts, each executed by the real SEVM.run and compared with a reference EVM for every value of the symbolic call value",
